@@ -133,7 +133,7 @@ class Machine:
         return "?" if self._volatile_names else name
 
     # ------------------------------------------------------------------ pristine oracle
-    def pristine_phase(self, vars_):
+    def pristine_phase(self, vars_, probe_kinds=False):
         """For each program variable: reset -> build only its own steps under default
         config with nothing else alive -> compute under canonical FIFO -> record."""
         for v in vars_:
@@ -157,6 +157,20 @@ class Machine:
                 with warnings.catch_warnings():
                     warnings.simplefilter("ignore")
                     rec["value"] = x.compute(scheduler=sim)
+                    # which OTHER operations work on this program with no history at all: an operation
+                    # that raises later in a history is history-dependent only if it works here
+                    ok = {"compute", "compute_many"}
+                    for kind, f in () if not probe_kinds else (("graph", lambda: x.__dask_graph__()), ("simplify", lambda: x.simplify()),
+                                    ("optimize", lambda: x.optimize()),
+                                    ("inspect", lambda: [touch(x, a_) for a_ in ACCESSORS]),
+                                    ("persist", lambda: x.persist(scheduler=Sim(random.Random(0), policy="fifo", prop=self.prop, stats={})))):
+                        try:
+                            f()
+                            ok.add(kind)
+                        except Exception:  # noqa: BLE001
+                            pass
+                    if probe_kinds:
+                        rec["kinds_ok"] = sorted(ok)
             except Violation:
                 rec["error"] = "violation-in-pristine"
             except Exception as e:  # noqa: BLE001
